@@ -141,7 +141,13 @@ def gval(gk, lam, x):
 
 
 def make_prox(sp, gk, lam, n):
-    return {"none": None, "l1": sp.prox.L1Reg([n], lam), "l2": sp.prox.L2Reg([n], lam), "box": sp.prox.BoxConstraint([n], -0.5, 0.8)}[gk]
+    sh = list(n) if isinstance(n, (list, tuple)) else [n]
+    return {"none": None, "l1": sp.prox.L1Reg(sh, lam), "l2": sp.prox.L2Reg(sh, lam), "box": sp.prox.BoxConstraint(sh, -0.5, 0.8)}[gk]
+
+
+def flat(v):
+    """Logical (C-order) flattening of whatever layout the caller's array has."""
+    return np.asarray(v).reshape(-1)
 
 
 def record_gm(sp, rs, k):
@@ -164,19 +170,30 @@ def record_gm(sp, rs, k):
     x0 = np.zeros(n, dtype=A.dtype) if k % 2 == 0 else (xs + 0.5 * (rs.randn(n) + (1j * rs.randn(n) if cplx else 0))).astype(A.dtype)
     if gk == "box":
         x0 = np.clip(np.real(x0), -0.5, 0.8).astype(A.dtype)
+    shape = [n]
     if k % 4 == 3:
         xbuf = np.zeros(2 * n, dtype=A.dtype)
         x = xbuf[1::2]
         x[:] = x0
+    elif k % 4 == 1:
+        # the unknown is an IMAGE held by the caller in column-major order / as a plane of a volume (operators see it flattened)
+        shape = [n // 2, 2]
+        if k % 8 == 1:
+            x = np.asfortranarray(x0.reshape(shape))
+        else:
+            x = np.zeros(shape + [3], dtype=A.dtype)[:, :, 1]
+            x[...] = x0.reshape(shape)
     else:
         x = x0.copy()
+    F = lambda v: 0.5 * np.linalg.norm(A @ flat(v) - y) ** 2 + gval(gk, lam, flat(v))
+    gradf = lambda v: (A.conj().T @ (A @ flat(v) - y)).reshape(np.shape(v))
     D2 = np.linalg.norm(x0 - xs) ** 2
     Leff = 1.0 / alpha
     K = int(rs.choice([30, 80, 200])) if forced is None else forced
     if forced is not None:
         alpha = 1.0 / L
         Leff = L
-    alg = sp.alg.GradientMethod(lambda v: A.conj().T @ (A @ v - y), x, alpha, proxg=make_prox(sp, gk, lam, n), accelerate=acc, max_iter=K, tol=0)
+    alg = sp.alg.GradientMethod(gradf, x, alpha, proxg=make_prox(sp, gk, lam, shape), accelerate=acc, max_iter=K, tol=0)
     ev = []
     Fprev = F(x)
     F0gap = max(Fprev - Fs, 1e-300)
@@ -196,7 +213,8 @@ def record_gm(sp, rs, k):
     ev.append({"e": "end", "iter": int(alg.iter), "ratio": 0, "up": 0, "mdist": 0, "prod": 0, "saddle_defect": fx(defect),
                "final_dist": fx(np.sqrt(max(Fprev - Fs, 0) / F0gap)), "caller_prod": 0, "in_place": int(alg.x is x or np.array_equal(np.asarray(x), np.asarray(alg.x)))})
     return {"id": "gm%d" % k, "accelerate": int(acc), "constant_steps": 1, "max_iter": K, "final_tol": 1000000000, "ev": ev,
-            "meta": {"n": n, "g": gk, "complex": cplx, "kind": kind, "accelerate": acc, "alpha_L": round(alpha * L, 2)}}
+            "meta": {"n": n, "g": gk, "complex": cplx, "kind": kind, "accelerate": acc, "alpha_L": round(alpha * L, 2),
+                     "x": "strided" if k % 4 == 3 else ("column-major image" if k % 8 == 1 else "plane of a volume") if k % 4 == 1 else "contiguous"}}
 
 
 # relative distance to the minimiser that an accelerated run must reach within its 3000 updates (unit 1e-9); measured on the
@@ -234,17 +252,26 @@ def record_pdhg(sp, rs, k, force_mode=None):
     K = 3000
     gp = lam if mode.startswith("accel_p") else 0
     gd = 1.0 if mode.startswith("accel_d") else 0
+    shape = [n]
+    img = k % 4 == 0 and not (mode.endswith("array") or mode.endswith("_arr"))
     if k % 4 == 2:
         # the caller's primal / dual arrays are strided views: they must still hold the iterates
         xbuf, ubuf = np.zeros(2 * n, dtype=A.dtype), np.zeros((n, 2), dtype=A.dtype)
         x, u = xbuf[::2], ubuf[:, 1]
+    elif img:
+        # primal and dual are IMAGES: one in column-major order, one a plane of a volume (operators see them flattened)
+        shape = [n // 2, 2]
+        x = np.asfortranarray(np.zeros(shape, dtype=A.dtype))
+        u = np.zeros([3] + shape, dtype=A.dtype).transpose(1, 2, 0)[:, :, 1]
     else:
         x = np.zeros(n, dtype=A.dtype)
         u = np.zeros(n, dtype=A.dtype)
     tau_a = tau.copy() if isinstance(tau, np.ndarray) else tau
     sig_a = sigma.copy() if isinstance(sigma, np.ndarray) else sigma
-    pg = make_prox(sp, gk, lam, n) or sp.prox.NoOp([n])
-    alg = sp.alg.PrimalDualHybridGradient(sp.prox.L2Reg([n], 1, y=-y), pg, lambda v: A @ v, lambda v: A.conj().T @ v, x, u, tau_a, sig_a,
+    pg = make_prox(sp, gk, lam, shape) or sp.prox.NoOp(shape)
+    Aop = (lambda v: A @ v) if not img else (lambda v: (A @ flat(v)).reshape(shape))
+    AHop = (lambda v: A.conj().T @ v) if not img else (lambda v: (A.conj().T @ flat(v)).reshape(shape))
+    alg = sp.alg.PrimalDualHybridGradient(sp.prox.L2Reg(shape, 1, y=-y.reshape(shape)), pg, Aop, AHop, x, u, tau_a, sig_a,
                                           gamma_primal=gp, gamma_dual=gd, max_iter=K, tol=0)
     ts0 = np.mean(np.asarray(tau, dtype=float)) * np.mean(np.asarray(sigma, dtype=float))
 
@@ -252,7 +279,7 @@ def record_pdhg(sp, rs, k, force_mode=None):
         return float(np.real(np.vdot(dx, dx / tau)) + np.real(np.vdot(du, du / sigma)) - 2 * np.real(np.vdot(du, A @ dx)))
 
     ev = []
-    xprev = x.copy()
+    xprev = flat(x).copy()
     m1 = None
     while not alg.done():
         alg.update()
@@ -260,7 +287,7 @@ def record_pdhg(sp, rs, k, force_mode=None):
         if kk <= 400:
             md = 0
             if not accel:
-                m = M(xprev - xs, alg.u - us)
+                m = M(xprev - xs, flat(alg.u) - us)
                 if m1 is None:
                     m1 = max(m, 1e-300)
                 md = fx(m / m1)
@@ -268,14 +295,14 @@ def record_pdhg(sp, rs, k, force_mode=None):
             pr = fx(abs(np.mean(np.asarray(alg.tau, dtype=float)) * np.mean(np.asarray(alg.sigma, dtype=float)) / ts0 - 1)
                     + float(np.max(np.abs(np.asarray(alg.tau, dtype=float) / np.asarray(tau, dtype=float) * np.mean(np.asarray(alg.sigma, dtype=float)) / np.mean(np.asarray(sigma, dtype=float)) - 1))))
             ev.append({"e": "pd", "iter": int(kk), "ratio": 0, "up": 0, "mdist": md, "prod": pr, "saddle_defect": 0, "final_dist": 0, "caller_prod": 0, "in_place": 1})
-        xprev = alg.x.copy()
+        xprev = flat(alg.x).copy()
     # saddle point is a fixed point
     x2, u2 = xs.copy(), us.copy()
-    a2 = sp.alg.PrimalDualHybridGradient(sp.prox.L2Reg([n], 1, y=-y), pg, lambda v: A @ v, lambda v: A.conj().T @ v, x2, u2,
+    a2 = sp.alg.PrimalDualHybridGradient(sp.prox.L2Reg([n], 1, y=-y), make_prox(sp, gk, lam, n) or sp.prox.NoOp([n]), lambda v: A @ v, lambda v: A.conj().T @ v, x2, u2,
                                          tau.copy() if isinstance(tau, np.ndarray) else tau, sigma.copy() if isinstance(sigma, np.ndarray) else sigma, max_iter=1, tol=0)
     a2.update()
     defect = (np.linalg.norm(a2.x - xs) + np.linalg.norm(a2.u - us)) / max(np.linalg.norm(xs) + np.linalg.norm(us), 1.0)
-    fd = np.linalg.norm(alg.x - xs) / max(np.linalg.norm(xs), 1e-12)
+    fd = np.linalg.norm(flat(alg.x) - xs) / max(np.linalg.norm(xs), 1e-12)
     # array-valued steps handed in by the caller (the class rescales them in place under acceleration): whatever happens to the
     # caller's arrays, the PAIR must stay what it was - tau_i * sigma_j unchanged - so that it is still admissible for a later use
     caller_prod = 0.0
@@ -285,7 +312,8 @@ def record_pdhg(sp, rs, k, force_mode=None):
                "in_place": int((alg.x is x or np.array_equal(np.asarray(x), np.asarray(alg.x))) and (alg.u is u or np.array_equal(np.asarray(u), np.asarray(alg.u))))})
     # only the first 400 updates are logged: iter of the end event is not checked against the log
     return {"id": "pd%d" % k, "accelerate": int(accel), "constant_steps": int(not accel), "max_iter": K, "final_tol": 100000 if not accel else (ACCEL_FINAL_TOL if mode.startswith("accel_p") else ACCEL_DUAL_FINAL_TOL), "ev": ev, "final_dist_float": float(fd),
-            "meta": {"n": n, "g": gk, "complex": cplx, "steps": mode, "sigma": sigma if not isinstance(sigma, np.ndarray) else "array"}}
+            "meta": {"n": n, "g": gk, "complex": cplx, "steps": mode, "sigma": sigma if not isinstance(sigma, np.ndarray) else "array",
+                     "xu": "strided" if k % 4 == 2 else "images (column-major, plane of a volume)" if img else "contiguous"}}
 
 
 def run(ctx):
